@@ -17,8 +17,9 @@ import Pog.Props.ClientGen
     ids follow the strategy        full      `derived_id_follows_strategy`, `parsed_operation_fields`
     every recognised pair is an IR operation or a warning            full   `parse_partition`
     … is an IR operation (nothing omitted)                           ✗      `parse_keeps_all_partial`,
-          exact dropped class `dropped_iff`; witnesses `bad_status_key_drops_operation_counterexample`,
-          `empty_operation_id_drops_operation_counterexample`; general `bad_status_key_operation_is_invisible`
+          exact dropped class `dropped_iff` (F44 repaired: the empty operationId is no reason any more,
+          `empty_operation_id_former_witness`, `operation_id_never_empty`); witness
+          `bad_status_key_drops_operation_counterexample`; general `bad_status_key_operation_is_invisible`
     JSON ≡ YAML rendering (C19), unquoted numeric status codes         full   `status_key_typing`, `int_status_key_is_parsed` (F16 repaired)
           float / bool / null keys                                    ✗      `status_key_typing_counterexample`,
           `unquoted_reading_only_loses_operations`
@@ -61,16 +62,27 @@ def docUnquoted : Paths :=
 
 /-! ## The operation id follows the naming strategy -/
 
-/-- `OPERATION_ID` keeps a declared id verbatim, `PATH` ignores it, `CLEAN` is the FastAPI cleaner applied
-    to it, and a missing id is always derived from method and path. -/
-theorem derived_id_follows_strategy (mu path id : Str) (d : Option Str) :
+/-- `OPERATION_ID` keeps a declared NON-EMPTY id verbatim, `PATH` ignores it, `CLEAN` is the FastAPI cleaner applied
+    to it, and a missing or empty id (F44 repaired) is always derived from method and path. -/
+theorem derived_id_follows_strategy (mu path id : Str) (d : Option Str) (hid : id ≠ []) :
     chooseOpId .operationId mu path (some id) = id ∧
     chooseOpId .clean mu path (some id) = cleanOpId id mu path ∧
     chooseOpId .path mu path d = deriveOpIdU mu path ∧
-    (∀ st, chooseOpId st mu path none = deriveOpIdU mu path) := by
-  refine ⟨rfl, rfl, ?_, ?_⟩
-  · cases d <;> rfl
+    (∀ st, chooseOpId st mu path none = deriveOpIdU mu path) ∧
+    (∀ st, chooseOpId st mu path (some []) = deriveOpIdU mu path) := by
+  refine ⟨?_, ?_, ?_, ?_, ?_⟩
+  · simp only [chooseOpId, declaredId_of_ne_nil hid]
+  · simp only [chooseOpId, declaredId_of_ne_nil hid]
+  · unfold chooseOpId; cases declaredId d <;> rfl
   · intro st; cases st <;> rfl
+  · intro st; cases st <;> rfl
+
+example : ("listPets".toList : Str) ≠ [] := by decide
+
+/-- The id an operation is parsed with is never empty (F44 repaired) - every strategy, path, declared id. -/
+theorem operation_id_never_empty (st : Naming) (mu path : Str) (d : Option Str) (h : mu ∈ httpMethods) :
+    chooseOpId st mu path d ≠ [] :=
+  chooseOpId_ne_nil st mu path d h
 
 /-- Every IR operation produced for a path-item entry carries the path, the upper-cased method key, the id
     chosen by the strategy and `list(tags)`. -/
@@ -103,13 +115,18 @@ theorem parse_partition (u : UInfo) (st : Naming) (paths : Paths) :
     (parseOps u st paths).1.length + (parseOps u st paths).2.length = (allPairs u paths).length :=
   parseOps_partition u st paths
 
-/-- EXACTLY which operations end in the `except Exception: warn; continue` branch. -/
+/-- EXACTLY which operations end in the `except Exception: warn; continue` branch (F44 repaired: a declared empty operationId
+    no longer is among the reasons). -/
 theorem dropped_iff (u : UInfo) (st : Naming) (path key : Str) (op : RawOp) :
     opRaises u st path key op = true ↔
-      recognised u key = true ∧
-        (op.parseRaises = true ∨ op.responses.any StatusKey.isBad = true ∨
-          (st ≠ .path ∧ op.operationId = some [] ∧ op.responses ≠ [])) :=
+      recognised u key = true ∧ (op.parseRaises = true ∨ op.responses.any StatusKey.isBad = true) :=
   opRaises_iff u st path key op
+
+/-- No warning ever carries `operation_id_for_promo must be provided`: that `raise` of the response parser is unreachable from the
+    operations parser. -/
+theorem never_dropped_for_empty_id (u : UInfo) (st : Naming) (path key : Str) (op : RawOp) (w : OpWarning)
+    (h : parseOne u st path key op = .dropped w) : w.reason ≠ .emptyOpId :=
+  parseOne_never_emptyOpId u st path key op w h
 
 /-- ✗ FULL: `(parseOps u st paths).1.map key = allPairs u paths` for every document.
     PARTIAL: when no operation raises (see `dropped_iff` for the exact class), `parse_operations` yields exactly
@@ -152,12 +169,16 @@ theorem bad_status_key_operation_is_invisible (u : UInfo) (st : Naming) (paths :
     (parseOps u st paths).1 = (parseOps u st (eraseBadKeyOps paths)).1 :=
   (parseOps_erase u st paths).symm
 
-/-- ✗ witness: `operationId: ""` with a declared response is silently dropped as well
-    (`operation_id_for_promo must be provided`). -/
-theorem empty_operation_id_drops_operation_counterexample :
+/-- The former witness of F44: `operationId: ""` with a declared response used to be dropped with the warning
+    `operation_id_for_promo must be provided`; it now is the operation `get_a`, exactly like its twin without `operationId`
+    (and the PATH strategy always gave that). -/
+theorem empty_operation_id_former_witness :
     parseOps UInfo.ascii .operationId
       [(s "/a", [(s "get", { operationId := some [], responses := [.strKey (s "200")] })])]
-      = ([], [⟨s "GET", s "/a", .emptyOpId⟩]) := by decide
+      = ([⟨s "/a", s "GET", s "get_a", []⟩], []) ∧
+    parseOps UInfo.ascii .clean
+      [(s "/a", [(s "get", { operationId := some [], responses := [.strKey (s "200")] })])]
+      = parseOps UInfo.ascii .clean [(s "/a", [(s "get", { responses := [.strKey (s "200")] })])] := by decide
 
 /-! ## C19: quoted vs. unquoted status codes -/
 
@@ -312,7 +333,7 @@ example : parseSucceeds UInfo.ascii .operationId
       spelling of `t`'s tag group (same normalised key as `t`), and
     * the client of that tag group defines `name` exactly ONCE.
     What the theorem does not carry: that the class written to `endpoints/<module>.py` is the one the property imports (the import
-    lines of `client.py` are part of the ClientGen skeleton correspondence), and the hypotheses' complements (F44, F64). -/
+    lines of `client.py` are part of the ClientGen skeleton correspondence), and the hypothesis' complement (a node that makes the parser raise, a float / bool / null status key - `dropped_iff`) and F64. -/
 theorem reachable_through_apiclient_partial (u : UInfo) (st : Naming) (direct : Bool) (paths : Paths)
     (hs : parseSucceeds u st paths = true)
     (o : IROp) (name : Str) (ho : (o, name) ∈ (parseOps u st paths).1.zip (finalMethodNames direct (parseOps u st paths).1))
@@ -369,13 +390,13 @@ theorem path_strategy_method_names_valid (u : UInfo) (direct : Bool) (paths : Pa
 example : ∀ o ∈ [(⟨s "/a", s "GET", s "getUserById", []⟩ : IROp), ⟨s "/b", s "GET", s "class", []⟩],
     o.opId.any isAlnumA = true := by decide
 
-/-- ✗ witness: `operationId: $` (or the empty id without responses) is accepted and yields the method
-    name `""` — `async def (self…` in the client module. -/
+/-- ✗ witness: `operationId: $` is accepted and yields the method name `""` — `async def (self…` in the client module.
+    (The empty id without responses used to do the same; F44 repaired: it now gets the derived id.) -/
 theorem method_names_valid_counterexample :
     finalMethodNames true
       (parseOps UInfo.ascii .operationId [(s "/a", [(s "get", { operationId := some (s "$") })])]).1 = [[]] ∧
     finalMethodNames true
-      (parseOps UInfo.ascii .operationId [(s "/a", [(s "get", { operationId := some [] })])]).1 = [[]] := by
+      (parseOps UInfo.ascii .operationId [(s "/a", [(s "get", { operationId := some [] })])]).1 = [s "get_a"] := by
   decide
 
 end Pog.C07
